@@ -24,7 +24,7 @@ fn ans_dec(models: Vec<ModelSpec>, words: &[u64], ms: &[usize], expect: &[i64]) 
 }
 fn range_enc(models: Vec<ModelSpec>, msg: &[(i64, usize)], expect: &[u64]) -> Trace {
     let ops = msg.iter().map(|(s, m)| RangeOp::Enc { sym: *s, m: *m }).collect();
-    Trace::Range(RangeTrace { cfg: 5, sink: Sink::Vec, prefix: vec![], models, ops, source: Source::CursorVec, suffix: Suffix::None, seeks: vec![], expect: Some(expect.to_vec()) })
+    Trace::Range(RangeTrace { cfg: 5, sink: Sink::Vec, prefix: vec![], models, ops, source: Source::CursorVec, suffix: Suffix::None, seeks: vec![], expect: Some(expect.to_vec()), reassemble_at: vec![] })
 }
 
 pub fn vectors() -> Vec<Trace> {
